@@ -107,8 +107,21 @@ def gen(rng: Any, prop: str, tier: str) -> dict[str, Any]:
             continue
         dbs = m.sessions[sid]["txn"] if in_txn else m.dbs
         tables = [(d, s, t) for d in sorted(dbs) for s in sorted(dbs[d]) for t in sorted(dbs[d][s]["tables"])]
-        kind = rng.choices(["create", "insert", "update", "delete", "txn", "create_db", "create_schema", "view", "drop", "comment", "merge", "write_pandas"],
-                           [8 if len(tables) < 2 else 3, 12, 4, 3, 7, 3 if hazards["multi_call_statement"] else 1, 1, 1, 1, 2 if hazards["multi_call_statement"] else 0, 5 if hazards["multi_call_statement"] else 0, 2 if not hazards["multi_call_statement"] else 0])[0]
+        kind = rng.choices(["create", "insert", "update", "delete", "txn", "create_db", "create_schema", "view", "drop", "comment", "merge", "write_pandas", "fail"],
+                           [8 if len(tables) < 2 else 3, 12, 4, 3, 7, 3 if hazards["multi_call_statement"] else 1, 1, 1, 1, 2 if hazards["multi_call_statement"] else 0, 5 if hazards["multi_call_statement"] else 0, 2 if not hazards["multi_call_statement"] else 0, 2])[0]
+        if kind == "fail":
+            # a statement that fails (catalog or missing-object error) outside a transaction: what follows must still be committed at once
+            if in_txn or txn_owner is not None or not tables:
+                continue
+            fq = rng.choice(tables)
+            t = ".".join(fq)
+            g.ops.append({"s": sid, "k": "exec", "st": {"t": "failing"}, "sql": rng.choice([
+                f"CREATE TABLE {t} (A INT, B VARCHAR(7)) COMMENT = 'dup{g.fresh()}'",
+                f"ALTER TABLE {t} ADD COLUMN A VARCHAR(9)",
+                f"INSERT INTO {fq[0]}.{fq[1]}.NO_SUCH_TABLE VALUES (1, 2)",
+                f"CREATE VIEW {fq[0]}.{fq[1]}.VBAD AS SELECT * FROM {fq[0]}.{fq[1]}.NO_SUCH_TABLE",
+            ])})
+            continue
         cd, cs = m.session_ctx(sid)
         if kind == "create" or (not tables and kind in ("insert", "update", "delete", "view", "drop", "comment", "merge")):
             free = [t for t in ("T1", "T2", "T3") if (cd, cs, t) not in tables] or ["T1"]
@@ -361,6 +374,57 @@ def snapshot_dbpath(sim: core.Sim, D: str, names_hint: list[str] | None = None, 
         return snap
 
 
+def raw_view(cur: Any, user: list[str]) -> dict[str, Any]:
+    """Catalog, rows and Snowflake-side side tables of the user databases as ONE engine connection sees them."""
+    view: dict[str, Any] = {"schemas": [], "tables": {}, "views": [], "rows": {}}
+    low = {u.lower() for u in user}
+    for d, sc in cur.execute("select database_name, schema_name from duckdb_schemas() where not internal").fetchall():
+        if d.lower() in low and sc.lower() not in ("information_schema", "pg_catalog", "main"):
+            view["schemas"].append(f"{d}.{sc}")
+    tabs = cur.execute("select database_name, schema_name, table_name from duckdb_tables() where not internal").fetchall()
+    for d, sc, t in tabs:
+        if d.lower() not in low or sc.lower() == "pg_catalog":
+            continue
+        if sc.lower() == "information_schema" and t not in ("_fs_tables_ext", "_fs_columns_ext"):
+            continue
+        cols = [r[0] for r in cur.execute(f"select column_name from duckdb_columns() where database_name = '{d}' and schema_name = '{sc}' and table_name = '{t}' order by column_index").fetchall()]
+        view["tables"][f"{d}.{sc}.{t}"] = cols
+        view["rows"][f"{d}.{sc}.{t}"] = sorted(norm_rows(cur.execute(f'select * from "{d}"."{sc}"."{t}"').fetchall()), key=sort_key)
+    for d, sc, vw in cur.execute("select database_name, schema_name, view_name from duckdb_views() where not internal").fetchall():
+        if d.lower() in low and sc.lower() not in ("information_schema", "pg_catalog"):
+            view["views"].append(f"{d}.{sc}.{vw}")
+    view["schemas"].sort()
+    view["views"].sort()
+    return view
+
+
+def own_vs_committed(sim: core.Sim, world: Any, idle: list[str], user: list[str]) -> list[dict[str, Any]]:
+    """Sessions without an open explicit transaction: everything they were acknowledged must be committed, i.e. what
+    they see through their own engine connection equals what a fresh engine connection of the instance sees."""
+    out: list[dict[str, Any]] = []
+    with sim.quiet():
+        fs = core.find_instance()
+        cur = core.raw(fs.duck_conn).cursor()
+        try:
+            committed = raw_view(cur, user)
+        finally:
+            cur.close()
+        for sid in idle:
+            conn = world.conns.get(sid)
+            dc = getattr(conn, "_duck_conn", None)
+            if conn is None or dc is None or getattr(conn, "_is_closed", False):
+                continue
+            try:
+                own = raw_view(core.raw(dc), user)
+            except BaseException as e:  # noqa: BLE001
+                out.append({"sid": sid, "error": f"{type(e).__name__}: {str(e)[:200]}"})
+                continue
+            comps = [c for c in ("schemas", "tables", "views", "rows") if own[c] != committed[c]]
+            if comps:
+                out.append({"sid": sid, "diff": explain(own, committed, comps)})
+    return out
+
+
 # --------------------------------------------------------------------------- the two processes
 
 
@@ -409,6 +473,7 @@ def proc_a(w: int, D: str, case: dict[str, Any], fault: dict[str, Any], referenc
     try:
         with fakesnow.patch(db_path=D):
             world = PatchedWorld(sim)
+            open_txn: dict[str, bool] = {}
             for j, op in enumerate(case["ops"]):
                 if kind in ("clean", "exception") and fault["at"] == j:
                     if kind == "exception":
@@ -418,7 +483,13 @@ def proc_a(w: int, D: str, case: dict[str, Any], fault: dict[str, Any], referenc
                 out = world.apply(op)
                 _emit(w, {"ev": "op_done", "i": j, "ok": out.get("ok"), "exc": out.get("exc"), "events": sim.engine_events, "sys": lib.fsv_count() if have_shim else 0})
                 if reference:
-                    _emit(w, {"ev": "snap", "i": j, "snap": snapshot_dbpath(sim, D)})
+                    snap = snapshot_dbpath(sim, D)
+                    _emit(w, {"ev": "snap", "i": j, "snap": snap})
+                    t = op_kind(op)
+                    open_txn[op["s"]] = True if t == "begin" else False if t in ("commit", "rollback", "connect", "close") else open_txn.get(op["s"], False)
+                    idle = [sid for sid in case["config"]["sessions"] if not open_txn.get(sid, False)]
+                    for dv in own_vs_committed(sim, world, idle, [d for d in snap["dbs"] if d not in snap["attach_errors"]]):
+                        _emit(w, {"ev": "own_diff", "i": j, **dv})
         _emit(w, {"ev": "end", "how": "clean", "events": sim.engine_events, "sys": lib.fsv_count() if have_shim else 0, "shim": have_shim})
     except BodyError:
         _emit(w, {"ev": "end", "how": "exception", "events": sim.engine_events, "sys": lib.fsv_count() if have_shim else 0, "shim": have_shim})
@@ -613,6 +684,14 @@ def run(case: dict[str, Any]) -> dict[str, Any]:
             raise core.HarnessError(f"reference run did not complete: exit {code}, {len(snaps)}/{len(case['ops'])} snapshots")
         all_names = sorted({d for sn in snaps for d in sn["dbs"]})
         shutil.rmtree(D, ignore_errors=True)
+        probes["own_view_checks"] = len(snaps)
+        for r in recs:
+            if r["ev"] == "own_diff":
+                op = case["ops"][r["i"]]
+                violations.append(v_(f"acknowledged-not-committed/{op_kind(op)}" if "diff" in r else f"own-view-raises/{op_kind(op)}",
+                                     "a session with no open transaction sees state that is not committed (it would be lost by any exit)",
+                                     {"after_op": r["i"], "session": r["sid"], "op": {k: op.get(k) for k in ("s", "k", "sql")}, "diff": r.get("diff"), "error": r.get("error")}))
+                break
         D = os.path.join(base, "cnt")
         os.makedirs(D)
         code, recs0 = in_child(proc_a, D, case, {"kind": "none"}, False)
